@@ -28,6 +28,12 @@ class RNG:
         self.seeded = []
         self.assume_nonzero_weight = True
 
+    def _reg(self, v):
+        """numeric draws are inputs of the path: registered so that counterexample models prefer robust values"""
+        self.ctx.notes.setdefault("inputs", [])
+        if not any(v is x for x in self.ctx.notes["inputs"]):
+            self.ctx.notes["inputs"] = list(self.ctx.notes["inputs"]) + [v]
+
     def _tick(self, kind):
         if self.in_job:
             self.calls_in_job += 1
@@ -38,6 +44,7 @@ class RNG:
         self._tick("normal")
         v = self.ctx.fresh("N!")
         self.log.append(("normal", mu, sd, v))
+        self._reg(v)
         return v
 
     def uniform(self, a=0.0, b=1.0, size=None):
@@ -46,6 +53,7 @@ class RNG:
         self.ctx.solver.add(v.e >= lift(a), v.e < lift(b))
         self.ctx.model = None
         self.log.append(("uniform", a, b, v))
+        self._reg(v)
         self.ctx.get_model()          # a >= b makes the draw impossible: path abort (numpy would return a..b reversed)
         return v
 
@@ -55,6 +63,7 @@ class RNG:
         self.ctx.solver.add(v.e >= 0, v.e < 1)
         self.ctx.model = None
         self.log.append(("random", v))
+        self._reg(v)
         return v
 
     def randint(self, a, b=None, size=None):
